@@ -295,6 +295,33 @@ func init() {
 						c15Check(c15Case{Relation: "toma-wrap", Base: base, Opt: o}, res)
 						res.States++
 					}
+					// window and wrap together: the wrapped windowed run only re-breaks the lines of the windowed run
+					windows(c01L, func(s, e int) {
+						wb := base
+						wb.Start, wb.End = s, e
+						width := c01L
+						if !pad {
+							lo, hi := s, e
+							if lo == 0 {
+								lo = 1
+							}
+							if hi == 0 {
+								hi = c01L
+							}
+							width = hi - lo + 1
+						}
+						seen := map[int]bool{}
+						for _, w := range []int{1, 3, width - 1, width, width + 1, e - s + 1, e - s + 2, c01L - 1} {
+							if w < 1 || seen[w] {
+								continue
+							}
+							seen[w] = true
+							o := wb
+							o.Wrap = w
+							c15Check(c15Case{Relation: "toma-wrap", Base: wb, Opt: o}, res)
+							res.States++
+						}
+					})
 				}
 				for _, omitIns := range []bool{false, true} {
 					base := Call{Cmd: "topa", Sam: samText(len(c02RefA), pfiles[fi]), Ref: fastaOf("ref", c02RefA), OmitIns: omitIns, Threads: 1 + fi%3}
@@ -310,6 +337,22 @@ func init() {
 						c15Check(c15Case{Relation: "topa-wrap", Base: base, Opt: o}, res)
 						res.States++
 					}
+					windows(len(c02RefA), func(s, e int) {
+						if (s+e)%2 == 0 {
+							return
+						}
+						wb := base
+						wb.Start, wb.End = s, e
+						for _, w := range []int{1, 2, e - s + 1, e - s + 2, len(c02RefA) - 1} {
+							if w < 1 {
+								continue
+							}
+							o := wb
+							o.Wrap = w
+							c15Check(c15Case{Relation: "topa-wrap", Base: wb, Opt: o}, res)
+							res.States++
+						}
+					})
 				}
 				if fi == 3 {
 					base := Call{Cmd: "toma", Sam: samText(c01L, tfiles[fi])}
@@ -353,6 +396,18 @@ func init() {
 						res.States++
 					})
 				}
+				// an alignment whose reference row starts and ends with gap columns: insertions at positions 0 and L
+				{
+					g := c04Genome
+					recs2 := []string{"ref", "--" + g + "-", "qlead", "GG" + g + "-", "qtail", "--" + g + "T", "qboth", "GA" + g[:4] + "C" + g[5:] + "T", "qnone", "--" + g + "-"}
+					base := Call{Cmd: "variants", Msa: fastaOf(recs2...), RefID: "ref", Anno: gb(l.Feats), AnnoSuffix: "gb", Threads: 2}
+					windows(len(g), func(s, e int) {
+						o := base
+						o.Start, o.End = s, e
+						c15Check(c15Case{Relation: "variants-window", Base: base, Opt: o, Feats: l.Feats}, res)
+						res.States++
+					})
+				}
 				// the same relation through the real binary's flag layer, for a few windows
 				if li%2 == engine.Seed()%2 {
 					for _, w := range [][2]int{{3, 0}, {0, 7}, {4, 11}} {
@@ -379,7 +434,9 @@ func init() {
 						srecs = append(srecs, SamRec{Name: fmt.Sprintf("q%d", i), Pos: 1, Cigar: []CigOp{{'M', 18}}, Seq: strings.ReplaceAll(strings.ReplaceAll(q, "-", "A"), "R", "G")})
 					}
 				}
-				srecs = append(srecs, SamRec{Name: "qi", Pos: 1, Cigar: parseCigar("4M2I6M3D5M"), Seq: "ATGAGGAATAGTTCCAT"}, SamRec{Name: "qd", Pos: 3, Cigar: parseCigar("5M2D9M"), Seq: "GAAATTTAATCCAT"})
+				srecs = append(srecs, SamRec{Name: "qi", Pos: 1, Cigar: parseCigar("4M2I6M3D5M"), Seq: "ATGAGGAATAGTTCCAT"}, SamRec{Name: "qd", Pos: 3, Cigar: parseCigar("5M2D9M"), Seq: "GAAATTTAATCCAT"},
+					// insertions before the first and after the last reference base (positions 0 and L)
+					SamRec{Name: "qlead", Pos: 1, Cigar: parseCigar("2I18M"), Seq: "GG" + c04Genome}, SamRec{Name: "qtail", Pos: 1, Cigar: parseCigar("18M3I"), Seq: c04Genome + "TTT"})
 				for _, format := range []string{"gb", "gff"} {
 					anno := gb(feats)
 					if format == "gff" {
